@@ -836,6 +836,21 @@ func c10RunImpl(c *c10Case) {
 			c.Dout = c10DecodeRun(T, din, prior)
 		}
 		a, b := c10Build(T, c.V), c10Build(T, c.B)
+		// where a slice of the second value is a proper prefix of the first value's, the second value holds it the way
+		// `after := before; after.X = after.X[:n]` does: same storage, shorter length
+		for i, f := range T.fields {
+			if f.kind != 2 {
+				continue
+			}
+			va, vb := c.V.Vals[i].L, c.B.Vals[i].L
+			if len(vb) == 0 || len(vb) >= len(va) || fmt.Sprint(va[:len(vb)]) != fmt.Sprint(vb) {
+				continue
+			}
+			fa, fb := a.Elem().Field(f.idx), b.Elem().Field(f.idx)
+			if fa.Kind() == reflect.Slice && fa.Len() >= len(vb) {
+				fb.Set(fa.Slice(0, len(vb)))
+			}
+		}
 		var pts data.Points
 		c.DiffClass = c10Protect(func() error {
 			var err error
